@@ -224,7 +224,8 @@ func init() {
 			"faults inside quoted attribute expressions; unterminated string/comment/tag/literal/block/soydoc) inserted as a line of its own before EVERY line that starts a command in a template body: " +
 			"the error must carry the given file name, a line inside the input, the inserted line (single-line faults) or a line from it on (unterminated constructs), and show file:line in its text. " +
 			"render: a failing print at call depth 0..3 (callees in the same or another file, padded so line numbers differ), plain or inside if/foreach/let/switch/msg: File() must be the entry " +
-			"template's file and Line() the line of the failing command or of its enclosing block command in the entry template. distinct = distinct (file text, fault, line); non-trivial = all",
+			"template's file and Line() the line of the failing command or of its enclosing block command in the entry template; one third of the render cases use CRLF line ends; one in eleven defines the entry " +
+			"template in two files (rejected, or the error names one file with that file's failing line). distinct = distinct (file text, fault, line); non-trivial = all",
 		N: func(tier string) int {
 			if tier == "thorough" {
 				return 2000 + 20000
@@ -289,10 +290,20 @@ func init() {
 			}
 			// render faults
 			k := i - nParse
+			if k%11 == 5 {
+				return c19Duplicate(ctx)
+			}
 			depth := k % 4
 			wrap := (k / 4) % 6
 			sameFile := (k/24)%2 == 0
 			files, entryFile, okLines, desc := c19RenderCase(ctx.Rng, depth, wrap, ctx.Rng.Intn(12), ctx.Rng.Intn(30), sameFile)
+			if ctx.Rng.Intn(3) == 0 {
+				// the same files saved with Windows line endings: the lines are the same lines
+				for j := range files {
+					files[j].Text = strings.ReplaceAll(files[j].Text, "\n", "\r\n")
+				}
+				ctx.Cell("eol:crlf")
+			}
 			tofu, err := compile(files, nil)
 			if err != nil {
 				return fw.Result{Verdict: fw.Inconclusive, Key: "render-case-does-not-compile", Msg: errText(err), Case: files}
@@ -328,6 +339,9 @@ func init() {
 					why = append(why, fmt.Sprintf("render depth %d never exercised", d))
 				}
 			}
+			if !cells["eol:crlf"] || !cells["render-duplicate-template"] {
+				why = append(why, "CRLF files and duplicate definitions must both be exercised")
+			}
 			if obs["parse_errors_judged"] == 0 || obs["render_errors_judged"] == 0 {
 				why = append(why, "no error was judged")
 			}
@@ -339,6 +353,52 @@ func init() {
 			"lines(F) = 1 + number of newlines: an error at EOF may be reported on the empty last line",
 		},
 	})
+}
+
+// c19Duplicate: two files define the same template, each failing on a different line. Either the bundle is rejected,
+// or a render error names one of the two files together with the failing line of THAT file's definition.
+func c19Duplicate(ctx *fw.Ctx) fw.Result {
+	r := ctx.Rng
+	mk := func(pad int, bad string) (string, int) {
+		var b strings.Builder
+		b.WriteString("{namespace na}\n")
+		for j := 0; j < pad; j++ {
+			fmt.Fprintf(&b, "// padding %d\n", j)
+		}
+		b.WriteString("/** @param? u */\n{template .t0}\nline one{isNonnull($u)}\n" + bad + "\nafter\n{/template}\n")
+		return b.String(), 1 + pad + 4
+	}
+	padA, padB := r.Intn(40), r.Intn(40)
+	if padA == padB {
+		padB += 7
+	}
+	ta, la := mk(padA, c19Bad[r.Intn(5)])
+	tb, lb := mk(padB, c19Bad[r.Intn(5)])
+	names := [][2]string{{"first.soy", "second.soy"}, {"", "second.soy"}, {"first.soy", ""}, {"same.soy", "same.soy"}}[r.Intn(4)]
+	files := []srcFile{{names[0], ta}, {names[1], tb}}
+	ctx.Cell("render-duplicate-template")
+	ctx.Eval(fmt.Sprintf("dup:%v", files))
+	tofu, err := compile(files, nil)
+	if err != nil {
+		ctx.Obs("duplicate_definitions_rejected", 1)
+		return fw.Result{Verdict: fw.Held}
+	}
+	ijv := ref.MapOf("a", ref.Str("abcdef"))
+	_, rerr := render(tofu, "na.t0", map[string]ref.Value{}, &ijv, nil)
+	if rerr == nil {
+		return fw.Result{Verdict: fw.Inconclusive, Key: "render-case-did-not-fail", Case: files}
+	}
+	ctx.Obs("render_errors_judged", 1)
+	fp := errortypes.ToErrFilePos(rerr)
+	if fp == nil {
+		return fw.Result{Verdict: fw.Violated, Key: "render:no-file-position:duplicate", Case: files, Msg: "error carries no file position: " + errText(rerr)}
+	}
+	if (fp.File() == names[0] && fp.Line() == la) || (fp.File() == names[1] && fp.Line() == lb) {
+		return fw.Result{Verdict: fw.Held}
+	}
+	return fw.Result{Verdict: fw.Violated, Key: "render:wrong-position:duplicate-template", Case: files,
+		Msg: fmt.Sprintf("two files define na.t0 (accepted by the compiler); the failing command is on line %d of %q and on line %d of %q, but the error says %q line %d (%s)",
+			la, names[0], lb, names[1], fp.File(), fp.Line(), firstLine(errText(rerr)))}
 }
 
 func minInt(a, b int) int {
